@@ -13,8 +13,8 @@ import (
 	"strings"
 
 	"golang.org/x/tools/go/packages"
-	"golang.org/x/tools/go/ssa"
-	"golang.org/x/tools/go/ssa/ssautil"
+	"ikeverif/checker/xt/ssa"
+	"ikeverif/checker/xt/ssautil"
 )
 
 // ModulePath of the analysed repository.
@@ -31,6 +31,7 @@ type Ctx struct {
 	ModFuncs  []*ssa.Function         // every function with a body in module packages (incl. closures), sorted
 	inMod     map[*ssa.Package]bool
 	modPath   string
+	Inlined   []string // "caller <- callee" for every call folded back by the helper-inlining normalisation
 	cdMemo    map[*ssa.Function][]paramDom
 	cdOpen    map[*ssa.Function]bool
 	postOpen  map[*ssa.Function]bool
@@ -116,7 +117,31 @@ func Load(dir, goarch, modPath string, minPkgs int) (*Ctx, error) {
 		}
 	}
 	sort.Slice(c.ModFuncs, func(i, j int) bool { return c.ModFuncs[i].String() < c.ModFuncs[j].String() })
+	// Normalisation against the "extract helper" refactoring: direct calls to unexported module functions
+	// that are not anchors of a rule are inlined into their callers (vendored go/ssa, xt/ssa/inline.go). On
+	// the tree the rules were written for this inlines nothing: every unexported function of that tree is an
+	// anchor. A helper introduced later is folded back into the functions the rules look at.
+	if !NoInline {
+		res := ssa.InlineCalls(c.ModFuncs, ssa.InlineOptions{Callee: func(g *ssa.Function) bool {
+			if g.Object() == nil || g.Object().Exported() || !c.InModule(g) {
+				return false
+			}
+			return !inlineAnchors[g.Name()] && !strings.HasPrefix(g.Name(), "toString_") && !strings.HasPrefix(g.Name(), "init")
+		}})
+		c.Inlined = res.Inlined
+	}
 	return c, nil
+}
+
+// NoInline disables the helper-inlining normalisation (debugging).
+var NoInline bool
+
+// inlineAnchors: the unexported functions and methods of the module that rules name as their anchors
+// (all unexported functions of the tree the rules were written for). They are never inlined.
+var inlineAnchors = map[string]bool{
+	"init": true, "initMAC": true, "getAttrsKeys": true, "setAttr": true,
+	"verifyIntegrity": true, "calculateIntegrity": true, "encryptPayload": true, "decryptPayload": true,
+	"decryptMsg": true, "encryptMsg": true, "getAttribute": true, "concatenateNonceAndSPI": true,
 }
 
 // InModule reports whether fn (or its enclosing function) belongs to a loaded module package.
